@@ -167,6 +167,7 @@ type State struct {
 	sizeMemo  map[types.Type]int
 	guard     *term.Node // guard of the alternative being processed by mapMux
 	subst     map[*term.Node]*term.Node
+	bounds    map[*term.Node][2]uint64
 }
 
 type inputVar struct {
@@ -313,6 +314,53 @@ func (st *State) gByID(id int) *G {
 // noteBinding records var == const facts of the path condition; later reads of
 // the variable (from registers or memory) see the constant.
 func (st *State) noteBinding(c *term.Node) {
+	if c.Op == term.OpBAnd {
+		for _, a := range c.Args {
+			st.noteBinding(a)
+		}
+		return
+	}
+	// range facts about an input variable: once both bounds are known and tighter than the
+	// variable's own interval, later reads see a range-restricted twin (interval analysis then
+	// narrows the arithmetic built on it). The twin is tied to the original by an equality.
+	if (c.Op == term.OpUlt || c.Op == term.OpUle) && len(c.Args) == 2 {
+		a, b := c.Args[0], c.Args[1]
+		var v *term.Node
+		lo, hi := uint64(0), ^uint64(0)
+		if a.IsConst() && b.Op == term.OpVar && b.K2 == 0 {
+			v = b
+			lo = a.K
+			if c.Op == term.OpUlt {
+				lo++
+			}
+		} else if b.IsConst() && a.Op == term.OpVar && a.K2 == 0 {
+			v = a
+			hi = b.K
+			if c.Op == term.OpUlt {
+				hi--
+			}
+		}
+		if v != nil {
+			bd, ok := st.bounds[v]
+			if !ok {
+				bd = [2]uint64{v.ULo, v.UHi}
+			}
+			if lo > bd[0] {
+				bd[0] = lo
+			}
+			if hi < bd[1] {
+				bd[1] = hi
+			}
+			st.bounds[v] = bd
+			if bd[0] <= bd[1] && bd[1]-bd[0] < 1<<16 && (bd[0] > v.ULo || bd[1] < v.UHi) {
+				tw := st.b.VarView(v, bd[0], bd[1])
+				if cur, bound := st.subst[v]; !bound || !cur.IsConst() {
+					st.subst[v] = tw
+				}
+			}
+		}
+		return
+	}
 	switch {
 	case c.Op == term.OpEq && c.Args[0].Op == term.OpVar && c.Args[1].IsConst():
 		st.subst[c.Args[0]] = c.Args[1]
@@ -325,6 +373,7 @@ func (st *State) noteBinding(c *term.Node) {
 
 func (st *State) rebuildSubst() {
 	st.subst = map[*term.Node]*term.Node{}
+	st.bounds = map[*term.Node][2]uint64{}
 	for q := st.pc; q != nil; q = q.prev {
 		st.noteBinding(q.cond)
 	}
